@@ -1,4 +1,4 @@
-import ActixNet.Lemmas.SrvLog
+import ActixNet.Lemmas.SrvSound
 /-!
 # C08 — a faulted worker is detected, bypassed and replaced; its connection is re-routed
 
@@ -118,6 +118,38 @@ theorem accept_one_no_index_panic (cfg : Cfg) (fuel : Nat) (s : St) (c : Conn) (
   unfold incPrim; simp only; split
   · rfl
   · simp [setAvail, h512]
+
+/-- **The accept thread never panics** — for EVERY history: any sequence of operations, any schedule
+of client / worker / server actions at every yield point, any number of worker deaths (idle,
+partially loaded, saturated), any teardown order of their connections, late availability
+notifications and late replacement handles, any limit and 1..512 workers.  None of the three panic
+sites of accept.rs (`self.handles[self.next]` out of bounds, `% self.handles.len()` with no handle,
+`Availability::offset` beyond 512) is reachable. -/
+theorem accept_thread_never_panics (cfg : Cfg) (ok : CfgOk cfg) (kinds : List Kind) (ops : List Op) :
+    (run cfg (init cfg kinds) ops).fault ≠ some .panicIndex ∧
+    (run cfg (init cfg kinds) ops).fault ≠ some .panicRem ∧
+    (run cfg (init cfg kinds) ops).fault ≠ some .panicOffset :=
+  (run_np ok ops _ (init_np cfg kinds)).nopanic
+
+/-- in every reachable state every set availability bit belongs to a worker that has a handle (so
+`accept_one`'s search always finds it) — the invariant whose violation was the defect fixed in /repo -/
+theorem available_bit_has_handle (cfg : Cfg) (ok : CfgOk cfg) (kinds : List Kind) (ops : List Op) (i : Nat)
+    (h : (run cfg (init cfg kinds) ops).avail i = true) :
+    ∃ w ∈ (run cfg (init cfg kinds) ops).handles, ((run cfg (init cfg kinds) ops).wk w).idx = i :=
+  (run_np ok ops _ (init_np cfg kinds)).sound.bit i h
+
+/-- at most one handle per worker index, in every reachable state; more precisely every index is
+accounted for exactly once among handles, replacement handles in flight and unhandled fault reports
+(so a replacement keeps its predecessor's index and never coexists with it) -/
+theorem one_handle_per_index (cfg : Cfg) (ok : CfgOk cfg) (kinds : List Kind) (ops : List Op) :
+    ((run cfg (init cfg kinds) ops).handles.map fun w => ((run cfg (init cfg kinds) ops).wk w).idx).Nodup :=
+  handles_nodup (run_np ok ops _ (init_np cfg kinds)).sound
+
+/-- `next` always indexes an existing handle while there is one -/
+theorem next_in_range (cfg : Cfg) (ok : CfgOk cfg) (kinds : List Kind) (ops : List Op)
+    (h : (run cfg (init cfg kinds) ops).handles ≠ []) :
+    (run cfg (init cfg kinds) ops).next < (run cfg (init cfg kinds) ops).handles.length :=
+  (run_np ok ops _ (init_np cfg kinds)).sound.next1 h
 
 /-! ### Non-vacuity: one fault, re-route, replacement; and two faults with a late notification -/
 def cfg1 : Cfg := { limit := 1, nIdx := 2 }
